@@ -108,16 +108,16 @@ _BSEARCH = '_ZN19InterrogateDatabase26binary_search_wrapper_hashEP24InterrogateU
 HARNESSES += [
     {'id': 'c20_by_unique_name', 'property': 'C20', 'src': 'c20_unique_name.cxx', 'entry': 'harness_c20_by_unique_name',
      'tus': [_DB + 'interrogateDatabase.cxx'],
-     'desc': 'InterrogateDatabase::get_wrapper_by_unique_name on a database with one module registered in _modules_by_hash',
-     'domain': 'queried name: every NUL-free byte string of length 0..KLEN; module "LIBX" with 0..UMAX unique names in {a,b,c}^2 (sorted), '
-               'first_index in 1..10^6',
-     'oracle': 'first_index + offset when the name is LIBX + a table name, 0 otherwise; no crash (uncaught exception) for any length; '
-               'recursion terminates',
-     'nonterm_is_violation': True,
-     'bounds': {'quick': {'defs': {'KLEN': 7, 'UMAX': 2}, 'unwind': 10,
-                          'unwindset': {_BSEARCH: 4, 'll_strlen.0': 9, 'll_memcmp.0': 9, 'll_memcpy.0': 9}, 'cap': 600},
-                'thorough': {'defs': {'KLEN': 8, 'UMAX': 3}, 'unwind': 11,
-                             'unwindset': {_BSEARCH: 4, 'll_strlen.0': 10, 'll_memcmp.0': 10, 'll_memcpy.0': 10}, 'cap': 3000}}},
+     'cut': [_BSEARCH],    # decided separately by c20_bsearch; replaced here by a contract stub returning ANY of its possible results
+     'hflags': ['-DCUT_BSEARCH'],
+     'desc': 'InterrogateDatabase::get_wrapper_by_unique_name on a database with one module registered in _modules_by_hash '
+             '(compositional: the table search is c20_bsearch)',
+     'domain': 'queried name: every NUL-free byte string of length 0..KLEN; module "LIBX" with a table of 0..UMAX rows, first_index in 1..10^6; '
+               'search result: -1 or any offset 0..10^6',
+     'oracle': 'unknown library (incl. every name shorter than 4 characters) => 0 and no search; known library => the module table is searched '
+               'for the characters after the 4-character hash and the result is first_index+offset / 0; no crash (uncaught exception)',
+     'bounds': {'quick': {'defs': {'KLEN': 7, 'UMAX': 2}, 'unwind': 10, 'cap': 600},
+                'thorough': {'defs': {'KLEN': 12, 'UMAX': 2}, 'unwind': 15, 'cap': 3000}}},
 ]
 
 PROPERTY_INFO = {'C20': {'level': 'model_checking',
